@@ -85,6 +85,9 @@ def run_shard(shard, ctx, tier):
                 if n == 2 and lst[0] % 5 == 1:
                     for sk in range(3):                                                # integer-pixel coordinates held in int32 arrays
                         guarded_check(mod, {'boxes': lst, 'skew': sk, 'ints': 1}, ctx)
+                if n == 2 and lst[0] % 5 == 3:
+                    for sk in range(3):            # baselines that do not run left to right (right-to-left text, a repeated point)
+                        guarded_check(mod, {'boxes': lst, 'skew': sk, 'rtl': 1}, ctx)
                 if n == 2 and lst[0] % 5 == 2:
                     for sk in range(3):            # line ids that are only unique within their region ('l0', 'l1', ...) or absent (ALTO import)
                         for lid in (1, 2):
@@ -130,7 +133,7 @@ def many_boxes(layout):
 MANY_LAYOUTS = ['two-columns-of-seven', 'grid-4x4-shuffled', 'staircase-overlapping', 'one-column-bottom-up']
 
 
-def build_page(polygons, skew_deg, lv=0, ints=False, lineids=0):
+def build_page(polygons, skew_deg, lv=0, ints=False, lineids=0, rtl=False):
     from pero_ocr.core.layout import PageLayout, RegionLayout, TextLine
     page = PageLayout(id='p', page_size=(100, 1000))
     for k, poly in enumerate(polygons):
@@ -144,6 +147,13 @@ def build_page(polygons, skew_deg, lv=0, ints=False, lineids=0):
                                       polygon=np.asarray([[x0, y - 2], [max(x1, x0 + 1.0), y - 2 + dy], [max(x1, x0 + 1.0), y + 2 + dy], [x0, y + 2]]),
                                       heights=[2, 1], transcription=f'line {k}.{j}'))
         page.regions.append(reg)
+    if rtl:
+        for reg in page.regions:
+            for j, l in enumerate(reg.lines):
+                if j % 2 == 0:
+                    l.baseline = l.baseline[::-1].copy()                                   # right to left
+                else:
+                    l.baseline = np.concatenate([l.baseline[:1], l.baseline[:1], l.baseline[1:]])      # a repeated first point
     if lineids:
         for reg in page.regions:
             for j, l in enumerate(reg.lines):
@@ -222,7 +232,9 @@ def check_case(case, ctx):
         polygons = [POLYS[i] for i in case['polys']]
         what = f'polygons {polygons}'
     skew = SKEWS[case['skew']]
-    ctx.state((what, skew, case.get('lv', 0), case.get('gray', 0), case.get('ints', 0), case.get('lineids', 0)))
+    ctx.state((what, skew, case.get('lv', 0), case.get('gray', 0), case.get('ints', 0), case.get('lineids', 0), case.get('rtl', 0)))
+    if case.get('rtl'):
+        ctx.tag('baselines-not-left-to-right')
     if case.get('lineids'):
         ctx.tag('line-ids-not-unique-on-the-page')
     if case.get('ints'):
@@ -233,7 +245,7 @@ def check_case(case, ctx):
     for name, param in configs:
         sub = dict(case, cfg=[name, param])
         K = f'{ID}/{name}'
-        page = build_page(polygons, skew, case.get('lv', 0), ints=bool(case.get('ints')), lineids=case.get('lineids', 0))
+        page = build_page(polygons, skew, case.get('lv', 0), ints=bool(case.get('ints')), lineids=case.get('lineids', 0), rtl=bool(case.get('rtl')))
         before = snapshot(page)
         desc = f'{name} sorter (parameter {param}), {what}, line skew {skew} deg, lines per region {LINE_COUNTS[case.get("lv", 0)][:len(polygons)]}'
         try:
@@ -276,7 +288,7 @@ def check_case(case, ctx):
                 bad = f'region {b[1]}: its lines changed'
                 break
             for lb, la in zip(b[5], s[5]):
-                if np.abs(lb[4] - la[4]).max() > tol or not same_ring(lb[5], la[5], tol):
+                if lb[4].shape != la[4].shape or np.abs(lb[4] - la[4]).max() > tol or not same_ring(lb[5], la[5], tol):
                     bad = f'line {lb[1]}: geometry changed: baseline {lb[4].tolist()} -> {la[4].round(6).tolist()}'
                     break
             if bad:
@@ -287,7 +299,7 @@ def check_case(case, ctx):
         # history: a sorter object that has sorted many other pages before orders this page like a fresh one
         if len(polygons) >= 2 and len(polygons) <= 3:
             try:
-                out2 = run_sorter(name, param, build_page(polygons, skew, case.get('lv', 0), ints=bool(case.get('ints')), lineids=case.get('lineids', 0)), ctx,
+                out2 = run_sorter(name, param, build_page(polygons, skew, case.get('lv', 0), ints=bool(case.get('ints')), lineids=case.get('lineids', 0), rtl=bool(case.get('rtl'))), ctx,
                                   gray=bool(case.get('gray')), shared=True)
                 order2 = [r.id for r in out2.regions]
             except CaseTimeout:
@@ -318,5 +330,5 @@ def describe(tier):
         'bounds': BOUNDS[tier], 'alphabets': {'boxes': len(BOXES), 'overlapping': OVERLAPPING, 'polygons': POLYS, 'skews': SKEWS,
                                                'FakeIntersectionParameter': INTERSECT, 'ImageWidthDenominator': DENOMS},
         'assumptions': ['geometry compared within 1e-6 (the smart sorter rotates by the de-skew angle and back)', 'region ids are unique'],
-        'min_nontrivial': 100, 'required_tags': ['line-ids-not-unique-on-the-page', 'more-than-nine-regions', 'integer-coordinate-arrays', 'order-actually-changed', 'de-skew-rotation-applied', 'mutually-overlapping-lists'],
+        'min_nontrivial': 100, 'required_tags': ['baselines-not-left-to-right', 'line-ids-not-unique-on-the-page', 'more-than-nine-regions', 'integer-coordinate-arrays', 'order-actually-changed', 'de-skew-rotation-applied', 'mutually-overlapping-lists'],
     }
